@@ -49,6 +49,10 @@ func init() {
 				return violation("query: %s\ninstant query at %d cannot be created (%v) although the range query was", c.Query, t, err)
 			}
 			if d := compareAt(rng, inst, t, tol); d != "" {
+				if (hasFeat(feats, "agg:topk") || hasFeat(feats, "agg:bottomk")) && TopkAmbiguous(c, expr, st) {
+					feats = append(feats, "topk-tie-not-judged")
+					break
+				}
 				return core.Verdict{Status: "violation", Features: feats, Evals: evals,
 					Detail: fmt.Sprintf("query: %s\nwindow: start=%d end=%d step=%d (steps=%d) lookback=%d qlookback=%d opt=%q procs=%d\nrange result at t=%d (step %d) differs from the instant query at t=%d: %s\nrange:   %s\ninstant: %s\n",
 						c.Query, c.Start, c.End, c.Step, n, c.Lookback, c.QLookback, c.Opt, c.Procs, t, i, t, d, rng, inst)}
